@@ -7,6 +7,7 @@ mod c04;
 mod c05;
 mod c08;
 mod ckey;
+mod crash;
 mod c12;
 mod rng;
 mod sched;
@@ -72,6 +73,8 @@ fn main() {
         ("c08", "gen") => c08::gen(&args),
         ("ckey", "gen") => ckey::gen(&args),
         ("store", "gen") => store::gen(&args),
+        ("crash", "gen") => crash::gen(&args),
+        ("crash", "exec") => crash::exec(&args),
         ("store", "exec") => store::exec(&args),
         ("ckey", "exec") => ckey::exec(&args),
         ("c08", "exec") => c08::exec(&args),
